@@ -315,6 +315,14 @@ var ErrNoHandler = errors.New("message dropped: no handler registered")
 // returns ErrNoHandler and if no handler match the message it returns
 // ErrNoMatch.
 func (e *endPoint) dispatch(msg *Message) error {
+	// the handlers which end with this message: their closer is
+	// called without the lock, it may call the end point again.
+	var ended []*Handler
+	defer func() {
+		for _, h := range ended {
+			h.closeWith(nil)
+		}
+	}()
 	e.handlersMutex.Lock()
 	defer e.handlersMutex.Unlock()
 	if len(e.handlers) == 0 {
@@ -348,7 +356,7 @@ func (e *endPoint) dispatch(msg *Message) error {
 			}
 		}
 		if !keep {
-			h.closeWith(nil)
+			ended = append(ended, h)
 			e.handlers[i] = nil
 		}
 	}
